@@ -264,6 +264,34 @@ theorem unregister_releases_exactly {s : State} (hi : Inv s) {c : Collector} {na
 example : ∃ s c names, Inv s ∧ (c, names) ∈ s.collectorToNames ∧ names.length = 3 :=
   ⟨(register (init false none) exA).1, exA, getNames false exA, inv_register (inv_init _ _) _, by decide, by decide⟩
 
+/-! ### which `collect()` the registration itself invokes -/
+
+/-- **`register` calls `collect()` of the registering collector only, at most once, and exactly when it has to
+auto-describe** (no `describe` attribute and `auto_describe` on) — whether or not the registration is then rejected.
+In that case, and only then, the claimed names are those of the families `collect()` returned. -/
+theorem register_calls_only_self (s : State) (c : Collector) :
+    (∀ o, o ∈ registerCalls s c → o = Owner.coll c) ∧
+    (registerCalls s c).length ≤ 1 ∧
+    (registerCalls s c = [Owner.coll c] ↔ (c.describe = none ∧ s.autoDescribe = true)) ∧
+    (registerCalls s c = [Owner.coll c] →
+      described s.autoDescribe c = some (c.families.map fun f => (f.name, f.typ))) ∧
+    (registerCalls s c = [] → described s.autoDescribe c = c.describe) := by
+  unfold registerCalls described
+  cases hd : c.describe with
+  | some d => simp
+  | none => cases ha : s.autoDescribe <;> simp
+
+/-- no other call of a history invokes `collect()` on any collector -/
+theorem only_register_calls_collect (s : State) (op : Op) (o : Owner) (h : o ∈ stepCalls s op) :
+    ∃ c, op = .register c ∧ o = Owner.coll c := by
+  cases op with
+  | register c => exact ⟨c, rfl, (register_calls_only_self s c).1 o h⟩
+  | unregister c => simp [stepCalls] at h
+  | setTargetInfo l => simp [stepCalls] at h
+
+example : registerCalls (init true none) exB = [Owner.coll exB] ∧ registerCalls (init false none) exB = [] ∧
+    registerCalls (init true none) exA = [] := by decide
+
 /-! ### regression: the former F6 witness -/
 
 /-- describes `x` (counter) and `x_total` (gauge): the statement's claims are x, x_total, x_created, x_total -/
